@@ -1,5 +1,6 @@
 import MaltModel.Proofs.C19
 import MaltModel.Proofs.C19Cex
+import MaltModel.Proofs.C19Least
 /-!
 # C19 — static type inference over-approximates the types that occur at run time
 
@@ -294,6 +295,54 @@ theorem closure_cover_partial (hfix : IsTIFix R env G reach S ins outs) (hT : Tr
   obtain ⟨T', hc, hsub⟩ := hcov i n d hi hf hs hd hr x T hm
   exact ⟨T', hc, hv.mono hsub⟩
 
+
+/-! ## The work-list algorithm: leastness (proved), termination (false of the pinned code)
+
+FULL STATEMENT (false, two listed findings):
+
+    theorem ti_worklist_terminates : ∃ fuel, (analyze R env G fuel).2 = true
+    -- with fuel ≤ |nodes| · (1 + |names| · |types occurring in the program and the resolver's answers|) · max out-degree
+
+It fails (a) because the transfer function is not monotone — an assignment whose value is unknown keeps the target's
+stale set, a later visit strongly updates it, and the retracted set circulates round a loop for ever (finding
+`no_fixed_point_nonmonotone_transfer`; the real code and this model both run into the visit cap on the witness, under
+the same successor order) — and (b) because `visit_Tuple` builds ever deeper product types in a loop, so the lattice
+has no finite height (finding `no_fixed_point_unbounded_product_types`).  What is proved is the order-theoretic half,
+for every fuel: under a monotone transfer function the states the work list goes through never exceed ANY post-fixed
+point, so whenever the list empties on a post-fixed point (decided by `isTIFix` at run time) that point is the least
+one.  Termination under `MonoTransfer` + a finite type universe is NOT proved. -/
+
+/-- **Leastness.**  Under a monotone transfer function, `analyze` with any fuel (finished or not) computes `in`/`out`
+maps below every post-fixed point of the analysis equations. -/
+theorem ti_worklist_least {pins pouts : NMap} (hP : PostFix R env G pins pouts) (hM : MonoTransfer R env G) (fuel : Nat) :
+    Below (analyze R env G fuel).1 pins pouts := by
+  refine run_below hP hM fuel _ _ _ (fun j => ?_)
+  exact ⟨by simpa [NMap.get] using TMap.le_nil _, by simpa [NMap.get] using TMap.le_nil _⟩
+
+/-- In particular a post-fixed point that `analyze` itself returns is the least one: it is below every other. -/
+theorem ti_worklist_least_fixpoint {pins pouts : NMap} (fuel : Nat)
+    (_hself : PostFix R env G (analyze R env G fuel).1.ins (analyze R env G fuel).1.outs)
+    (hP : PostFix R env G pins pouts) (hM : MonoTransfer R env G) (j : Nat) :
+    TMap.le ((analyze R env G fuel).1.ins.get j) (pins.get j) ∧ TMap.le ((analyze R env G fuel).1.outs.get j) (pouts.get j) :=
+  ti_worklist_least hP hM fuel j
+
+open CEx in
+/-- The hypotheses are satisfiable: the one-node graph `def f(): …` (only the `arguments` node, whose transfer
+function is the identity) is monotone and has the empty maps as a post-fixed point. -/
+example : Below (analyze R0 env0 { entry := 1, nodes := [{ nArgs with succs := [] }] } 10).1 [] [] := by
+  refine ti_worklist_least ⟨?_, ?_, ?_⟩ ?_ 10
+  · intro x T h; simp [contextTypes, env0, TMap.get] at h
+  · intro m hm k hk; simp at hm; subst hm; simp at hk
+  · intro i n hf x T h
+    obtain ⟨_, hn⟩ := Graph.find_id hf
+    simp at hn
+    subst hn
+    simp [transfer, newSyms, nArgs, argNodes, argSyms, TMap.update, NMap.get, TMap.get] at h
+  · intro i n a b hf hab
+    obtain ⟨_, hn⟩ := Graph.find_id hf
+    simp at hn
+    subst hn
+    simpa [transfer, newSyms, nArgs, argNodes, argSyms, TMap.update] using hab
 
 /-! ## Non-vacuity: the hypotheses are satisfiable by concrete, non-trivial instances -/
 
